@@ -269,6 +269,40 @@ def gen_schedule(rng, thorough):
     return ops
 
 
+def td_index_schedule(rng, out, n):
+    """the model-hopping (index) proposal of a nested transdimensional proposal is a proposal like any other: configured with jump
+    interval k it proposes a new index only on iterations 1, k+1, 2k+1, ... of its chain until its duration has elapsed"""
+    from epsie.chain import Chain
+    from ..models import TDModel
+    for i in range(n):
+        nc = rng.choice([2, 3])
+        k, D = rng.choice([2, 3, 4]), rng.choice([3, 5])
+        comps = ['a%d' % j for j in range(1, nc + 1)]
+        tds = [P.Normal([c], cov=[0.5]) for c in comps]
+        births = [P.UniformBirth([c], {c: (0., 4.)}) for c in comps]
+        mp = P.BoundedDiscrete(['k'], boundaries={'k': (0, nc)}, successive={'k': False}, jump_interval=k, jump_interval_duration=D)
+        td = P.NestedTransdimensional(comps + ['k'], mp, tds, births)
+        ch = Chain(comps + ['k'], TDModel(nc, sigma=1.0, blobs=False, log=False), [td], bit_generator=numpy.random.PCG64(rng.randrange(1, 10 ** 6)))
+        ch.start_position = dict({c: (1.0 + j if j == 0 else numpy.nan) for j, c in enumerate(comps)}, k=1)
+        hops = []
+        for it in range(1, k * D + 4):
+            cur = int(ch.current_position['k'])
+            ch.step()
+            hops.append(int(ch.proposed_position['k']) != cur)         # without successive jumps an index jump always moves
+        out.evaluations += len(hops)
+        out.count('td_index_schedules')
+        want = [(it - 1) % k == 0 or (it - 1) // k >= D for it in range(1, k * D + 4)]
+        if hops != want:
+            bad = [it for it in range(1, len(hops) + 1) if hops[it - 1] != want[it - 1]]
+            out.violations.append(dict(
+                what='the index proposal of a nested transdimensional proposal with jump interval %d (duration %d) proposed a new index on '
+                     'iterations %s; it is due on %s' % (k, D, [it for it in range(1, len(hops) + 1) if hops[it - 1]][:12],
+                                                        [it for it in range(1, len(want) + 1) if want[it - 1]][:12]),
+                replay=dict(kind='td_index', jump_interval=k, duration=D, components=nc, first_deviation=bad[:3])))
+            return
+        out.nontrivial.add(repr(('td_index', k, D, i)))
+
+
 def run(seed, tier):
     thorough = tier == 'thorough'
     rng = random.Random(seed * 15485863 + 15)
@@ -303,6 +337,8 @@ def run(seed, tier):
             out.violations.append(dict(what=what, replay=dict(config=cfg.describe(), schedule=sched, detail=detail)))
         if len(out.violations) > 6:
             break
+    if len(out.violations) <= 6:
+        td_index_schedule(rng, out, 12 if thorough else 4)
     failing = core.run_coq_cases('C15', HEADER, terms, per_file=2000)
     for f in failing[:10]:
         cfg, sched, i, li, ci = meta[f[0]]
